@@ -54,12 +54,7 @@ func c08SessText(text string, r protocol.Range) (string, bool) {
 }
 
 func verifC08Session(steps int) {
-	w, _ := c01RunSession(steps)
-	if zzverif.Choice("settle", 2) == 1 {
-		for i := 0; i < 2; i++ {
-			w.reanalyse(i)
-		}
-	}
+	w, _, _ := c01RunSession(steps)
 	ctx := context.Background()
 	view := func(u protocol.DocumentURI) (string, bool) {
 		for i := 0; i < 3; i++ {
@@ -86,7 +81,39 @@ func verifC08Session(steps int) {
 			zzverif.Assert(got == wantText, "C08: "+what+" reports a range that does not cover the symbol's text")
 		}
 	}
-	switch zzverif.Choice("request", 4) {
+	// a second cursor: `as:cash`, the last posting of main's first transaction; its line depends
+	// on the version of main (an answer computed from an older version points elsewhere)
+	cashLine := uint32(0)
+	{
+		ls := c08SessLines(w.buf[0])
+		for i, ln := range ls {
+			if ln == "    as:cash" && cashLine == 0 {
+				cashLine = uint32(i)
+			}
+		}
+	}
+	cash := protocol.TextDocumentPositionParams{TextDocument: protocol.TextDocumentIdentifier{URI: w.uri(0)}, Position: protocol.Position{Line: cashLine, Character: 7}}
+	switch zzverif.Choice("request", 7) {
+	case 4:
+		h, _ := w.s.Hover(ctx, &protocol.HoverParams{TextDocumentPositionParams: cash})
+		zzverif.Assert(h != nil && h.Range != nil, "C08: no hover on an account under the cursor")
+		if h != nil && h.Range != nil {
+			check("hover", w.uri(0), *h.Range, "as:cash")
+		}
+	case 5:
+		locs, _ := w.s.References(ctx, &protocol.ReferenceParams{TextDocumentPositionParams: cash, Context: protocol.ReferenceContext{IncludeDeclaration: true}})
+		zzverif.Assert(len(locs) > 0, "C08: no reference for an account under the cursor")
+		for _, l := range locs {
+			check("references", l.URI, l.Range, "as:cash")
+		}
+	case 6:
+		ds, _ := w.s.DocumentSymbol(ctx, &protocol.DocumentSymbolParams{TextDocument: protocol.TextDocumentIdentifier{URI: w.uri(0)}})
+		for _, x := range ds {
+			if d, ok := x.(protocol.DocumentSymbol); ok {
+				check("document symbol", w.uri(0), d.Range, "")
+				check("document symbol (selection)", w.uri(0), d.SelectionRange, "")
+			}
+		}
 	case 0:
 		locs, _ := w.s.References(ctx, &protocol.ReferenceParams{TextDocumentPositionParams: tdp, Context: protocol.ReferenceContext{IncludeDeclaration: true}})
 		zzverif.Assert(len(locs) > 0, "C08: no reference for an account under the cursor")
